@@ -34,3 +34,17 @@ add("C13", "H", REL,
 add("C20", "H", REL,
     "Every history up to the stated depth over link batches giving indegrees 0..3 with ties, self-links and repeated links, pages at depths 0..2 under several prefixes; in every state, for every webentity, k in {1,2,3,4,10} and depth limit in {None,0,1,2}, the answer is judged against the number of distinct sources taken from the page links (length, eligibility, order, values, nothing larger omitted). Known finding: unlinked pages are reported with indegree 1.",
     "DESIGN.md 6/C20")
+
+add("C06", "H", "explicit-state BFS over API histories of the real Traph in 9 rule configurations (bounded depth, exhaustive), lock-step reference ladder",
+    "For 3 default rules x 3 anchored rule sets, every history up to the stated depth over pages at/above/below every anchor (https and www variants first), creations, deletions, rule installation/removal and reopen; on every transition the reported creations are compared with the reference ladder (E, K, variations not already owned) and the page must resolve to max(E,K); in every state the potential prefix of 17 probes is compared and must leave the stores untouched; a rule installation must match re-insertion of the pages beneath the anchor in some order (all permutations).",
+    "DESIGN.md 6/C06")
+TWIN = "explicit-state BFS over API histories of the real Traph (bounded depth, exhaustive) with a twin index run in lock-step"
+add("C11", "H", TWIN,
+    "Every history up to the stated depth with reopen and clear as ordinary letters (any position, any number of times); at a reopen: file sizes are whole blocks, bytes and the ~230-answer observation vector are identical before/after; after every later request, reports, bytes and observation vector equal those of a twin that was never closed; after clear they equal those of a freshly created index with the given rules, and keep doing so.",
+    "DESIGN.md 6/C11")
+add("C12", "H", "explicit-state BFS over API histories of the real Traph (bounded depth, exhaustive), lock-step record of every id issued",
+    "Every history up to the stated depth over creations (one and several prefixes, refused), deletions, automatic creations, rule installations creating several webentities, reopen and clear; on every transition every reported id must be greater than every id reported since creation/clear, and every prefix the request attached must carry it.",
+    "DESIGN.md 6/C12")
+add("C15", "H", TWIN,
+    "Every history up to the stated depth (multi-block stems, constructor rules, overwrite flag on/off) runs on an in-memory and on a fresh on-disk index; per request the reports/exceptions, per state the bytes of both stores and the observation vector must be identical, and the blocks read through FileStorage.map() right after the request must equal the store's blocks.",
+    "DESIGN.md 6/C15")
